@@ -458,7 +458,12 @@ class FV:
     def __init__(s, n, bits=None, fp=None): s.n = n; s._bits = bits; s._fp = fp
     @property
     def fp(s):
-        if s._fp is None: s._fp = z3.fpBVToFP(s._bits, FSORT[s.n])
+        if s._fp is None:
+            b = s._bits
+            # bits that are the IEEE image of an FP term (a float that went through memory / a bitcast): reuse the FP term itself
+            # (exact except for NaN payloads, which are not modelled)
+            if z3.is_app_of(b, z3.Z3_OP_FPA_TO_IEEE_BV) and b.arg(0).sort() == FSORT[s.n]: s._fp = b.arg(0)
+            else: s._fp = z3.fpBVToFP(b, FSORT[s.n])
         return s._fp
     @property
     def bits(s):
@@ -487,6 +492,9 @@ def _alts(p, c):
     return [(c, p)]
 
 class Unsupported(Exception): pass
+class CellPack:
+    """raw memory cells moved by an integer load that spans opaque (real-mode float / pointer) cells; may only be stored again"""
+    def __init__(s, cells): s.cells = list(cells)
 
 def bv(v, n): return z3.BitVecVal(v, n)
 def Or(xs):
@@ -624,6 +632,8 @@ class Exec:
             mem.write(p.obj, p.off, [(('ptr', v), k) for k in range(8)]); return
         if isinstance(ty, FloatTy) and isinstance(v, RV):
             mem.write(p.obj, p.off, [(('real', v), k) for k in range(ty.n // 8)]); return
+        if isinstance(v, CellPack):
+            mem.write(p.obj, p.off, list(v.cells)); return
         b = s.to_bits(v, ty)
         if b.size() % 8: b = z3.ZeroExt(8 - b.size() % 8, b)
         mem.write(p.obj, p.off, bv_to_cells(b))
@@ -678,8 +688,11 @@ class Exec:
             kind, val = c0[0]
             if all(c is not None and isinstance(c[0], tuple) and c[0][1] is val and c[1] == i for i, c in enumerate(cells)):
                 return val
+            if isinstance(ty, IntTy) and ty.n % 8 == 0: return CellPack(cells)      # integer load/store pair used as a memcpy of opaque cells
             raise Unsupported('partial load of opaque %s' % kind)
-        if any(c is not None and isinstance(c[0], tuple) for c in cells): raise Unsupported('mixed opaque load')
+        if any(c is not None and isinstance(c[0], tuple) for c in cells):
+            if isinstance(ty, IntTy) and ty.n % 8 == 0: return CellPack(cells)
+            raise Unsupported('mixed opaque load')
         if any(c is None for c in cells):
             s.obligations.append(('uninit-load', s.cur_cond, 'load of uninitialised bytes %s+%d' % (p.obj, p.off)))
         b = cells_to_bv(cells, s.fresh)
@@ -704,7 +717,7 @@ class Exec:
         if isinstance(a, RV):
             return a if a.r.eq(b.r) else RV(a.n, z3.If(c, a.r, b.r))
         if isinstance(a, Ptr):
-            if a.obj == b.obj:
+            if isinstance(b, Ptr) and a.obj == b.obj:
                 if a.off == b.off: return a
                 ao = a.off if not isinstance(a.off, int) else bv(a.off, 64)
                 bo = b.off if not isinstance(b.off, int) else bv(b.off, 64)
@@ -950,7 +963,18 @@ class Exec:
                 r = z3.fpToUBV(RTZ, x, z3.BitVecSort(n))
             s.oblige('ub', bad, op + ' out of range (float-cast-overflow)')
             return r
-        if op == 'ptrtoint' or op == 'inttoptr': raise Unsupported(op)
+        if op == 'ptrtoint':
+            # address = fresh per-object base + offset (no layout assumptions between objects); enough for pointer differences / comparisons inside one object
+            def p2i(p):
+                base = bv(0, 64) if p.obj == 'null' else z3.BitVec('addr!%s' % p.obj, 64)
+                return base + (bv(p.off, 64) if isinstance(p.off, int) else p.off)
+            if isinstance(v, MPtr):
+                r = p2i(v.alts[-1][1])
+                for c, pi in reversed(v.alts[:-1]): r = z3.If(c, p2i(pi), r)
+            else: r = p2i(v)
+            r = z3.simplify(r)
+            return r if dty.n == 64 else (z3.Extract(dty.n - 1, 0, r) if dty.n < 64 else z3.ZeroExt(dty.n - 64, r))
+        if op == 'inttoptr': raise Unsupported(op)
         raise Unsupported(op)
 
     # ---------------------------------------------------------------- function execution
